@@ -439,11 +439,37 @@ class GetStatusUnknown(_UnknownSubscription):
     target = f'{SB}:SubscriptionsManagerBase.on_get_status_request'
     doc = 'GetStatus: unknown identifier => fault; no state change in either case'
 
+    def hooks(self, ex):
+        class H:
+            tracked_names = ('Expires', 'remaining_seconds')
+
+            @staticmethod
+            def on_attr_write(ex_, st, o, attr, val, node):
+                if attr == 'Expires':
+                    st.ghost['c:response_expires'] = st.box(val)
+                return None
+
+            @staticmethod
+            def on_attr_read(ex_, st, o, attr, node):
+                if attr == 'remaining_seconds':
+                    r = fresh(RealS, 'rem')
+                    st.ghost['c:remaining'] = r
+                    st.ghost['c:remaining_of'] = st.box(o)
+                    return [(st, vreal(r))]
+                return None
+        return H()
+
     def post(self, ex, st0, st, outcome, b):
         super().post(ex, st0, st, outcome, b)
         if outcome[0] == 'ret':
             for fld in ('_started', '_expire_seconds', 'unsubscribed_at', '_is_closed'):
                 ex.oblige(st, f'read_only.{fld}', field(st, self.sub, fld) == field(st0, self.sub, fld))
+            if 'c:response_expires' in st.ghost:
+                ex.oblige(st, 'status_reports_the_remaining_time_of_that_subscription', z3.And(
+                    st.ghost['c:response_expires'] == Val.real(st.ghost['c:remaining']),
+                    st.ghost['c:remaining_of'] == Val.ref(self.sub.e)) if 'c:remaining' in st.ghost else z3.BoolVal(False))
+            else:
+                ex.oblige(st, 'status_reports_the_remaining_time_of_that_subscription', z3.Not(self.known.e))
 
 
 @register
@@ -907,3 +933,130 @@ class LookupForRequest(FnCheck):
             ex.oblige(st, 'unknown_identifier_yields_none_not_error', z3.BoolVal(g[1]))
             ex.oblige(st, 'lookup_under_table_lock', z3.BoolVal(g[2] > 0))
             ex.oblige(st, 'returns_index_result', st.box(outcome[1]) == self.result.e)
+
+
+from contracts.C09 import LockHooks, held   # noqa: E402  (ghost lock depth helpers)
+
+
+@register
+class OnSubscribe(FnCheck):
+    id = 'C08.on_subscribe'
+    prop = 'C08'
+    opaque_ok = True
+    tag = 'S'
+    target = f'{SB}:SubscriptionsManagerBase.on_subscribe_request'
+    doc = ('Subscribe: exactly one new subscription is created from the request, it is stored in the subscription table '
+           'under the table lock before the answer is built, and the answer is built for that very subscription '
+           '(manager address, reference parameters, remaining time)')
+
+    def setup(self, b):
+        self.lock = b.obj('table_lock')
+        self.table = b.obj('subscriptions', lock=self.lock)
+        self.o = b.obj('self', cls=(SB, 'SubscriptionsManagerBase'), _subscriptions=self.table, base_urls=b.obj('base_urls'))
+        self.req = b.obj('request_data')
+        b.distinct(self.o, self.table, self.lock, self.req)
+        b.st.ghost['log'] = ()
+        return self.o, [self.req], {}
+
+    def callees(self, ex):
+        def mk(ex_, st, args, kwargs):
+            s = st.alloc('Subscription')
+            st.ghost['log'] += (('mk', st.box(args[0]), st.box(s), held(st, 'self._subscriptions.lock')),)
+            return s
+
+        def add(ex_, st, args, kwargs):
+            st.ghost['log'] += (('add', st.ghost.get('c:recv'), st.box(args[0]), held(st, 'self._subscriptions.lock')),)
+            return NONE
+
+        def resp(ex_, st, args, kwargs):
+            st.ghost['log'] += (('response', st.box(args[0]), st.box(args[1]), 0),)
+            return st.alloc('CreatedMessage')
+        return {f'{SB}:SubscriptionsManagerBase._mk_subscription_instance': Pure(mk, name='_mk_subscription_instance (new subscription from the request)'),
+                '*._mk_subscription_instance': Pure(mk, name='_mk_subscription_instance'),
+                '*.add_object': Pure(add, name='table.add_object (C11)'),
+                f'{SB}:SubscriptionsManagerBase._mk_subscribe_response_message': Pure(resp, name='_mk_subscribe_response_message (C08.subscribe_response)')}
+
+    def hooks(self, ex):
+        class H(LockHooks):
+            tracked_names = ()
+
+            def on_call(self, ex_, st, fv, keys, args, kwargs, node):
+                if fv.t == 'method':
+                    st.ghost['c:recv'] = st.box(fv.recv)
+                return None
+        return H()
+
+    def post(self, ex, st0, st, outcome, b):
+        if outcome[0] == 'exc':
+            return
+        log = st.ghost['log']
+        names = [e[0] for e in log]
+        ex.oblige(st, 'one_subscription_created_stored_then_answered', z3.BoolVal(names == ['mk', 'add', 'response']))
+        if names == ['mk', 'add', 'response']:
+            sub = log[0][2]
+            ex.oblige(st, 'created_from_this_request', log[0][1] == Val.ref(self.req.e))
+            ex.oblige(st, 'the_new_subscription_is_stored_in_the_table_under_its_lock', z3.And(
+                log[1][1] == Val.ref(self.table.e), log[1][2] == sub, z3.BoolVal(log[1][3] > 0)))
+            ex.oblige(st, 'answer_built_for_the_new_subscription', z3.And(log[2][1] == Val.ref(self.req.e), log[2][2] == sub))
+
+
+@register
+class SubscribeResponse(FnCheck):
+    id = 'C08.subscribe_response'
+    prop = 'C08'
+    opaque_ok = True
+    tag = 'S'
+    target = f'{SB}:SubscriptionsManagerBase._mk_subscribe_response_message'
+    doc = ('SubscribeResponse: Expires is the remaining time of the new subscription and the reference parameters are '
+           'those of that subscription (the identifier the consumer must present in Renew / GetStatus / Unsubscribe)')
+
+    def setup(self, b):
+        self.refp = b.any('reference_parameters')
+        self.sub = b.obj('subscription', reference_parameters=self.refp, path_suffix=b.any('path_suffix', maybe_none=True))
+        self.o = b.obj('self', cls=(SB, 'SubscriptionsManagerBase'))
+        self.req = b.obj('request_data')
+        b.distinct(self.o, self.sub, self.req)
+        return self.o, [self.req, self.sub, b.obj('base_urls')], {}
+
+    optional_fields = ('path_suffix',)
+    stable_fields = ('reference_parameters', 'SubscriptionManager', 'path_suffix')
+
+    def callees(self, ex):
+        def mk_resp(ex_, st, args, kwargs):
+            r = st.alloc('SubscribeResponse')
+            st.write_field(r, 'SubscriptionManager', st.alloc('EndpointReference'))
+            st.ghost['c:resp'] = r.e
+            return r
+
+        def reply(ex_, st, args, kwargs):
+            st.ghost['c:reply'] = (st.box(args[0]), st.box(args[1]))
+            return st.alloc('CreatedMessage')
+        return {'sdc11073.xml_types.eventing_types:SubscribeResponse': Pure(mk_resp, name='SubscribeResponse()'),
+                '*.mk_reply_soap_message': Pure(reply, name='mk_reply_soap_message')}
+
+    def hooks(self, ex):
+        chk = self
+
+        class H:
+            tracked_names = ('remaining_seconds',)
+
+            @staticmethod
+            def on_attr_read(ex_, st, o, attr, node):
+                if attr == 'remaining_seconds':
+                    r = fresh(RealS, 'rem')
+                    st.ghost['c:remaining'] = (r, st.box(o))
+                    return [(st, vreal(r))]
+                return None
+        return H()
+
+    def post(self, ex, st0, st, outcome, b):
+        if outcome[0] == 'exc' or 'c:resp' not in st.ghost:
+            return
+        r = st.ghost['c:resp']
+        rem = st.ghost.get('c:remaining')
+        ex.oblige(st, 'expires_is_the_remaining_time_of_the_new_subscription', z3.And(
+            z3.Select(st.get_arr('f:Expires'), r) == Val.real(rem[0]), rem[1] == Val.ref(self.sub.e)) if rem else z3.BoolVal(False))
+        mgr = Val.oid(z3.Select(st.get_arr('f:SubscriptionManager'), r))
+        ex.oblige(st, 'reference_parameters_identify_the_new_subscription', z3.Select(st.get_arr('f:ReferenceParameters'), mgr) == self.refp.e)
+        rep = st.ghost.get('c:reply')
+        ex.oblige(st, 'the_response_is_the_reply_to_this_request', z3.And(rep[0] == Val.ref(self.req.e), rep[1] == Val.ref(r)) if rep else z3.BoolVal(False))
